@@ -243,7 +243,7 @@ PROPS = {
         "extra": ["nopar_outputs"],
         "claim": "Lean 4 theorem by induction over executions of the evaluator protocol (read bound / finish+publish+lower / prune) for every interleaving: the collector's "
                  "minimum is the cmp_key-minimum of the trials admitted by the initial bound; two complete runs agree; sequential fold = min_by_key; arrival order irrelevant; "
-                 "executions are finite. Real histories (taps on AtomicMin get/set_min under an operation lock, 1..16 threads, injected delays) are replayed against the model; "
+                 "executions are finite; frames_schedule_independent: the parallel frame recompression (try_for_each) returns an error exactly when some frame does not decode and otherwise every frame's own result, whichever frames the workers reached first. Real histories (taps on AtomicMin get/set_min under an operation lock, 1..16 threads, injected delays) are replayed against the model; "
                  "outputs are compared byte for byte across pool sizes, nesting, timing and the build without the parallel feature.",
         "note": "Partial in the brief's sense: the proof covers the protocol's logic for all interleavings of its atomic steps; rayon's scheduler, the atomics' implementation (R1) and "
                 "the compressors being functions whose success depends only on output size (D2, D3; exercised on every logged trial) are contracts, not theorems.",
